@@ -209,6 +209,11 @@ class Check(Property):
 
     def oracle(self, c):
         k = c["kind"]
+        if not getattr(self, "_known_done", False):
+            self._known_done = True
+            kv = self.known_probes()
+            if kv:
+                return kv
         if k == "object":
             return self.oracle_object(c)
         if k == "cross":
@@ -307,6 +312,25 @@ class Check(Property):
                         v.append(f"{tag} ** {e!r}: comparing the rebuilt quantity raised {type(exc).__name__}: {exc}")
         except Exception as exc:  # noqa: BLE001
             v.append(f"{tag} fractional-exponent tuple round trip raised {type(exc).__name__}: {exc}")
+        return v
+
+    def known_probes(self):
+        """objects of two registries combined through NumPy or through a conversion target (recorded as a known finding)"""
+        import numpy as np
+        v = []
+        A, B = regs.fresh("float"), regs.fresh("float")
+        with warnings.catch_warnings():
+            warnings.simplefilter("ignore")
+            for label, fn in (("np.add(A [1] m, B [2] cm)", lambda: np.add(A.Quantity(np.array([1.0]), "meter"), B.Quantity(np.array([2.0]), "centimeter"))),
+                              ("A.Quantity(1, 'm').to(B.cm)", lambda: A.Quantity(1.0, "meter").to(B.centimeter)),
+                              ("A.Quantity(1, B.m)", lambda: A.Quantity(1.0, B.meter))):
+                try:
+                    r = fn()
+                    v.append(f"C18 [known finding F55] {label} returned {r!r}: objects of two registries combined silently (ValueError expected)")
+                except ValueError:
+                    pass
+                except Exception as exc:  # noqa: BLE001
+                    v.append(f"C18 probe {label} raised {type(exc).__name__}: {exc}")
         return v
 
     def oracle_exceptions(self):
